@@ -228,19 +228,37 @@ static void OpenDB(char *dbpath, sqlite3 **db)
 static void DropAllTables(sqlite3 *db)
 {
     int rc;
+    size_t i;
     char *err_msg = 0;
-    const char *dropAllObjectsSQL = "SELECT 'DROP TABLE IF EXISTS ' || name || ';' FROM sqlite_master WHERE type = 'table';";
-    /* Execute SQL statement */
-    rc = sqlite3_exec(db, dropAllObjectsSQL, 0, 0, &err_msg);
+    sqlite3_stmt *stmt;
+    strvector *dropsql;
+    /* The query only PRODUCES the "DROP TABLE ..." statements: collect them first
+     * (the schema cannot be changed while the query on sqlite_master is running),
+     * then execute them. Internal tables (sqlite_sequence) cannot be dropped.
+     */
+    const char *dropAllObjectsSQL = "SELECT 'DROP TABLE IF EXISTS ' || name || ';' FROM sqlite_master WHERE type = 'table' AND name NOT LIKE 'sqlite_%';";
+
+    initStrVector(&dropsql);
+    rc = sqlite3_prepare_v2(db, dropAllObjectsSQL, -1, &stmt, 0);
     if(rc != SQLITE_OK){
-        fprintf(stderr, "SQL error: %s\n", err_msg);
-        sqlite3_free(err_msg);
+        fprintf(stderr, "SQL error: %s\n", sqlite3_errmsg(db));
+        DelStrVector(&dropsql);
+        return;
     }
-    #ifdef DEBUG
-    else{
-        fprintf(stdout, "Table created successfully\n");
+
+    while((rc = sqlite3_step(stmt)) == SQLITE_ROW){
+        StrVectorAppend(dropsql, (char*)sqlite3_column_text(stmt, 0));
     }
-    #endif
+    sqlite3_finalize(stmt);
+
+    for(i = 0; i < dropsql->size; i++){
+        rc = sqlite3_exec(db, getStr(dropsql, i), 0, 0, &err_msg);
+        if(rc != SQLITE_OK){
+            fprintf(stderr, "SQL error: %s\n", err_msg);
+            sqlite3_free(err_msg);
+        }
+    }
+    DelStrVector(&dropsql);
 }
 
 static void CloseDB(sqlite3 *db)
